@@ -44,6 +44,14 @@ def observe(cfg, origin=0, variant=0):
             p = f.predict()
         else:
             f.fit(ys)
+            if variant % 7 in (2, 5):
+                # between fit and predict another forecaster of the same kind and configuration is fitted on other data
+                sib = type(f)(**f.get_params(deep=False))
+                other = pd.Series((ys.fillna(0.0).values[::-1] * 3 + 11).astype(float), index=ys.index)
+                try:
+                    sib.fit(other)
+                except Exception:
+                    pass
             p = f.predict(np.array(fh) if variant % 3 == 2 else fh)
     except Exception as e:
         return {"crash": type(e).__name__ + ": " + str(e)[:160]}
@@ -121,6 +129,65 @@ def delegate_checks(ctx):
                         ctx.violation(sc, "AutoETS(%s) gives %s, statsmodels ETSModel %s" % (o, list(p.values), want))
                     else:
                         n_ok += 1
+    # Theta on top of the exponential smoothing adapter: simple exponential smoothing with drift of the seasonally adjusted
+    # series (classical multiplicative decomposition), the forecasts re-seasonalised afterwards.  Checked structurally:
+    # forecast / seasonal index of its time point - SES level is linear in the step, with half the least-squares slope
+    # of the adjusted series as its slope
+    from statsmodels.tsa.seasonal import seasonal_decompose
+    for si in range(4 if ctx.quick else 12):
+        r2 = np.random.RandomState(ctx.seed * 10 + si)
+        sp = [4, 1, 3, 4][si % 4]
+        pat = np.array([1.25, 0.8, 1.05, 0.9][:sp]) if sp > 1 else np.ones(1)
+        yv = (40 + (1.1 + 0.2 * si) * t + r2.rand(n) * 2) * pat[t % sp]
+        for origin in (0, 5):
+            ctx.evaluations += 1
+            sc = {"delegate": "ThetaForecaster", "sp": sp, "series": si, "origin": origin}
+            try:
+                y = pd.Series(yv, index=pd.RangeIndex(origin, origin + n))
+                # consecutive steps (the deseasonalizer aligns a stretch of time by its first point; horizons with gaps
+                # are re-seasonalised as if they had none -- outside the listed properties, see DESIGN 10.7)
+                fh = [1, 2, 3, 4, 5, 6] if origin == 0 else [3, 4, 5, 6, 7]
+                p = ThetaForecaster(sp=sp).fit(y).predict(fh)
+                seas = seasonal_decompose(yv, model="multiplicative", period=sp).seasonal[:sp] if sp > 1 else np.ones(1)
+                ydes = yv / seas[t % sp]
+                level = float(SM_ES(ydes, initialization_method="estimated").fit().forecast(1)[0])
+                slope = float(np.polyfit(t, ydes, 1)[0]) / 2
+                d = [float(p.iloc[k]) / seas[(n + h - 1) % sp] - level for k, h in enumerate(fh)]
+                got = [(d[k] - d[0]) / (fh[k] - fh[0]) for k in range(1, len(fh))]
+            except Exception as e:
+                ctx.violation(sc, "delegate crash %s: %s" % (type(e).__name__, str(e)[:120]))
+                continue
+            try:
+                # the same after update(update_params=True): the drift's slope is that of all the data seen, with the
+                # seasonal indices of the first fit; with and without seasonal adjustment
+                for des in (True, False):
+                    if des and sp > 1:
+                        # (with seasonal adjustment the forecaster keeps the ADJUSTED training values next to the raw new
+                        # ones and adjusts both again on update: observation outside the listed properties, DESIGN 10.7)
+                        continue
+                    m = 18
+                    f = ThetaForecaster(sp=sp, deseasonalize=des).fit(y.iloc[:m])
+                    f.update(y.iloc[m:], update_params=True)
+                    pu = f.predict(fh)
+                    sea = seasonal_decompose(yv[:m], model="multiplicative", period=sp).seasonal[:sp] if (sp > 1 and des) else np.ones(1)
+                    k_ = len(sea)
+                    slope_u = float(np.polyfit(t, yv / sea[t % k_], 1)[0]) / 2
+                    du = [float(pu.iloc[k]) / sea[(n + h - 1) % k_] for k, h in enumerate(fh)]
+                    got_u = [(du[k] - du[0]) / (fh[k] - fh[0]) for k in range(1, len(fh))]
+                    if not np.allclose(got_u, slope_u, rtol=1e-6, atol=1e-8):
+                        ctx.violation(dict(sc, updated=True, deseasonalize=des),
+                                      "ThetaDriftUsesAllDataAfterParameterUpdate: after fit on %d points and update(update_params="
+                                      "True) with %d more the forecast increments per step are %s, half the slope of the %d points "
+                                      "is %.6f" % (m, n - m, got_u, n, slope_u))
+                        break
+            except Exception as e:
+                ctx.violation(dict(sc, updated=True), "delegate crash %s: %s" % (type(e).__name__, str(e)[:120]))
+            if [int(i) for i in p.index] != [origin + n - 1 + h for h in fh] or not np.allclose(got, slope, rtol=1e-6, atol=1e-8):
+                ctx.violation(sc, "ThetaIsSesPlusDriftReseasonalised: forecasts %s; after removing the seasonal index and the "
+                                  "SES level %.6f the increments per step are %s, half the trend slope is %.6f"
+                              % (list(p.values), level, got, slope))
+            else:
+                n_ok += 1
     # AutoETS(auto=True): the reported model is the candidate with the least information criterion among the
     # documented candidate set (non-seasonal: error x trend x damped), each fitted by statsmodels with its own options
     lvl = 100 - 60 * 0.75 ** t          # a trend that levels off: damped candidates matter
